@@ -35,6 +35,7 @@ const (
 var stName = []string{"runnable", "running", "waitlock", "waitcond", "waitpred", "blocked", "done", "dead"}
 
 type task struct {
+	quiet int // >0: yields of this task are no scheduling points (QuietBegin/QuietEnd)
 	id      int
 	name    string
 	inc     int
@@ -414,6 +415,21 @@ func active() *Sim {
 	return s
 }
 
+// QuietBegin / QuietEnd bracket code that runs in the calling task without being a scheduling point:
+// yields inside do not count, draw nothing from the tape and call no hook (used for first-use initialisation
+// of process-wide state, which must not make the first run of a process differ from the later ones).
+func QuietBegin() {
+	if s := S; s != nil && s.cur != nil {
+		s.cur.quiet++
+	}
+}
+
+func QuietEnd() {
+	if s := S; s != nil && s.cur != nil && s.cur.quiet > 0 {
+		s.cur.quiet--
+	}
+}
+
 // Yield is a possible preemption point.
 func Yield(label string) {
 	s := S
@@ -422,6 +438,9 @@ func Yield(label string) {
 	}
 	if s.over {
 		select {}
+	}
+	if s.cur.quiet > 0 {
+		return
 	}
 	s.Yields++
 	t0 := s.cur
